@@ -151,7 +151,7 @@ def run(ctx):
     server_bin("rel")
     from ..core import load_findings
     known = [f for f in load_findings()["findings"] if f.get("status") == "open" and f.get("kind") == "crash"]
-    nh, ms = (60, 40) if ctx.quick else (1500, 50)
+    nh, ms = (120, 40) if ctx.quick else (1500, 50)
     for p in pmap(worker, [("%s/%d" % (ctx.seed, i), nh, ms, known) for i in range(NCPU)]): ctx.merge(p)
     ctx.rule = ("random documents over ASCII, 2/3/4-byte characters, CR, LF, CRLF, empty lines; histories of up to 50 notifications with 1-4 changes each (ranged: zero width, "
                 "within a line, whole lines, across lines, overshooting column, overshooting line; every ~10th a full-text replacement); six URI shapes incl. percent escapes; "
